@@ -674,6 +674,17 @@ pub fn ops_only_assignment<F: Field + PrimeField64>(
     pubs: &[F],
     priv_slots: &[(u32, F)],
 ) -> Option<Vec<F>> {
+    ops_only_assignment_adv(c, pubs, priv_slots, false)
+}
+
+/// As `ops_only_assignment`; with `perturb_io` the product slot of every fused MulAdd — which
+/// no row constrains — receives `a*b + 1` instead of the honest `a*b`.
+pub fn ops_only_assignment_adv<F: Field + PrimeField64>(
+    c: &Circuit<F>,
+    pubs: &[F],
+    priv_slots: &[(u32, F)],
+    perturb_io: bool,
+) -> Option<Vec<F>> {
     let n = c.witness_count as usize;
     let mut w: Vec<Option<F>> = vec![None; n];
     let set = |w: &mut Vec<Option<F>>, i: WitnessId, v: F| -> bool {
@@ -745,7 +756,7 @@ pub fn ops_only_assignment<F: Field + PrimeField64>(
                         if let Some(io) = intermediate_out {
                             // the fused row does not constrain the product slot
                             if g(&w, *io).is_none() {
-                                set(&mut w, *io, av * bv);
+                                set(&mut w, *io, if perturb_io { av * bv + F::ONE } else { av * bv });
                             }
                         }
                         if !set(&mut w, *out, av * bv + cv) {
@@ -782,4 +793,20 @@ pub fn ops_only_assignment<F: Field + PrimeField64>(
         }
     }
     Some(w.into_iter().map(|x| x.unwrap_or(F::ZERO)).collect())
+}
+
+/// Does the full assignment `w` satisfy the relation of every emitted op? (hints / table ops
+/// carry none at this layer)
+pub fn ops_sat_full<F: Field + PrimeField64>(c: &Circuit<F>, w: &[F], pubs: &[F]) -> bool {
+    let g = |i: WitnessId| w.get(i.0 as usize).copied().unwrap_or(F::ZERO);
+    c.ops.iter().all(|op| match op {
+        Op::Const { out, val } => g(*out) == *val,
+        Op::Public { out, public_pos } => pubs.get(*public_pos).is_some_and(|p| g(*out) == *p),
+        Op::Alu { kind, a, b, c: cc, out, intermediate_out } => {
+            let cv = cc.map(g).unwrap_or(F::ZERO);
+            let acc = intermediate_out.map(g);
+            alu_record_ok(*kind, &[g(*a), g(*b), cv, g(*out)], if *kind == AluOpKind::HornerAcc { acc } else { None })
+        }
+        _ => true,
+    })
 }
